@@ -190,6 +190,16 @@ def handle : List String → String
     let a : Option Items := if attrs == "~" then none else some (parseItems attrs)
     showTag ((newTag md pyLower (mkCfg m dcls lcls) (ptok name) (parseItems kw) a).bind
       fun t => tagSetMany md t (parseSets sets))
+  | ["fmtsel", items] =>
+    match attributeStringSel md ⟨false, id, otherPlaceholder⟩ (parseItems items) with
+    | .ok s => "ok " ++ stok s
+    | .valueError => "valueError"
+  | ["parse2", m, dcls, lcls, kw, pk, name, attrs] =>
+    -- the two routes of on_duplicate_attribute: `-` = not given
+    let o (s : String) : Option OnDupArg := if s == "-" then none else some (parseOnDup s)
+    match parseStartTagArg md pyLower (mkCfg m dcls lcls) (effectiveOnDup (o kw) (o pk)) (ptok name) (parseRaw attrs) with
+    | some r => showTag r
+    | none => "raised TypeError"
   | ["parse", m, dcls, lcls, ondup, name, attrs] =>
     match parseStartTagArg md pyLower (mkCfg m dcls lcls) (parseOnDup ondup) (ptok name) (parseRaw attrs) with
     | some r => showTag r
